@@ -91,6 +91,14 @@ func reportField(r *vkit.R, fc fieldCase, extra string) {
 func perField(r *vkit.R) {
 	maxLen := r.N(3, 3)
 	alpha := alphabet
+	if !r.Quick() {
+		// thorough: additionally length <= 4 over a reduced alphabet (done by a second pass below)
+		defer perFieldPass(r, []string{"*", "a", "b", "-a", "-b", "a*", "-a*", "*/s", "-*/s"}, 4)
+	}
+	perFieldPass(r, alpha, maxLen)
+}
+
+func perFieldPass(r *vkit.R, alpha []string, maxLen int) {
 	reqVals := []string{"a", "b", "c", "", "a1", "a/s", "b/s", "b/t"}
 	groupSets := [][]string{nil, {"a"}, {"b"}, {"c"}, {"a", "b"}, {"a", "c"}, {"c", "d"}, {"a", "b", "c"}, {""}, {"a1"}}
 	type resReq struct{ res, sub string }
